@@ -519,7 +519,7 @@ static int chmask_of(const std::string& c) {
 // ---------------------------------------------------------------------------------------------
 // alphabets
 static Item mk(Kind k, Ty t, int n, Pat p) { Item it; it.kind = k; it.ty = t; it.n = n; it.pat = p; return it; }
-static std::vector<Item> alphabet(int level) { // 2 = full, 1 = medium, 0 = reduced
+static std::vector<Item> alphabet(int level) { // 3 = full (with the macro items: 100-element arrays, 40-byte strings), 2 = large, 1 = medium, 0 = reduced
 	std::vector<Item> a;
 	// scalars, simplest first
 	for (int t = 0; t < NTY; t++) a.push_back(mk(SCALAR, (Ty)t, 1, t == BOOL ? P_MAX : P_DIST));
@@ -536,9 +536,8 @@ static std::vector<Item> alphabet(int level) { // 2 = full, 1 = medium, 0 = redu
 		a.push_back(mk(CSTR, U8, 3, P_DIST));
 	}
 	if (level >= 2) {
-		a.push_back(mk(STRING, U8, 1, P_DIST)); a.push_back(mk(STRING, U8, 40, P_DIST)); // 40 > inline capacity of asl::String
-		a.push_back(mk(LSTRING, U8, 0, P_DIST)); a.push_back(mk(LSTRING, U8, 40, P_DIST));
-		a.push_back(mk(CSTR, U8, 0, P_DIST));
+		a.push_back(mk(STRING, U8, 1, P_DIST)); a.push_back(mk(LSTRING, U8, 0, P_DIST)); a.push_back(mk(CSTR, U8, 0, P_DIST));
+		if (level >= 3) { a.push_back(mk(STRING, U8, 40, P_DIST)); a.push_back(mk(LSTRING, U8, 40, P_DIST)); } // 40 > inline capacity of asl::String
 		for (int t = 0; t < NTY; t++) {
 			if (t != I32) a.push_back(mk(ARRAY, (Ty)t, 0, P_DIST));
 			a.push_back(mk(ARRAY, (Ty)t, 1, P_DIST));
@@ -546,7 +545,7 @@ static std::vector<Item> alphabet(int level) { // 2 = full, 1 = medium, 0 = redu
 			if (t != BOOL) a.push_back(mk(ARRAY, (Ty)t, 1, P_MAX));
 			if (is_float((Ty)t)) { a.push_back(mk(ARRAY, (Ty)t, 1, P_QNAN)); if (t != F64) a.push_back(mk(ARRAY, (Ty)t, 1, P_SNAN)); }
 			if (t != BOOL) a.push_back(mk(ARRAY, (Ty)t, 3, P_DIST));
-			a.push_back(mk(ARRAY, (Ty)t, 100, P_DIST));
+			if (level >= 3) a.push_back(mk(ARRAY, (Ty)t, 100, P_DIST));
 		}
 	}
 	return a;
@@ -600,8 +599,8 @@ int main(int argc, char** argv) {
 	}
 	bool T = vf::opt.thorough();
 	const int ALL = CH_BUF | CH_FILE | CH_MEM | CH_PAIR, MAIN = CH_BUF | CH_FILE | CH_MEM;
-	std::vector<Item> full = alphabet(2), mid = alphabet(1), red = alphabet(0);
-	vf::setinfo("alphabet_full", fmt("%d", (int)full.size())); vf::setinfo("alphabet_medium", fmt("%d", (int)mid.size())); vf::setinfo("alphabet_reduced", fmt("%d", (int)red.size()));
+	std::vector<Item> full = alphabet(3), large = alphabet(2), mid = alphabet(1), red = alphabet(0);
+	vf::setinfo("alphabet_full", fmt("%d", (int)full.size())); vf::setinfo("alphabet_large", fmt("%d", (int)large.size())); vf::setinfo("alphabet_medium", fmt("%d", (int)mid.size())); vf::setinfo("alphabet_reduced", fmt("%d", (int)red.size()));
 	vf::setinfo("host_byte_order", HOST_BIG ? "\"big\"" : "\"little\"");
 
 	// (a) all sequences of length 1 and 2 over the full alphabet, all four channels
@@ -632,10 +631,10 @@ int main(int argc, char** argv) {
 		L.flush();
 	}, 4);
 
-	// (d) length 3 (and 4): medium / reduced alphabets in the quick tier, full / reduced in the thorough tier
+	// (d) length 3: medium alphabet in the quick tier, large alphabet in the thorough tier; length 4 (thorough): reduced alphabet
 	if (!T) pass("len3_medium", mid, 3, MAIN);
 	else {
-		pass("len3_full", full, 3, MAIN);
+		pass("len3_large", large, 3, MAIN);
 		pass("len4_reduced", red, 4, MAIN);
 	}
 
